@@ -453,18 +453,27 @@ def validate(ctx, traces, kept, sig_of):
 # ---- L3: loaders and wedge lists -----------------------------------------------------------------------------------
 # scales: tilt x100, dose x100, defocus Angstrom x10 (= micrometre x1e5), astigmatism angle x100, phase shift x1000,
 #         pixel size x1000, z-shift x10, voltage x10, amplitude contrast x1000, cs x100
-def gen_tilts(rng, n):
+def gen_tilts(rng, n, repeats=True):
+    """Ascending tilt angles (x100).  With repeats a tilt may be recorded twice (step 0: e.g. 0 degrees taken again at the
+    end of a dose-symmetric series) - a loader returns ALL the numbers of its file, one wedge-list row per image.  Without
+    repeats (mdoc sorted by tilt: sort_values is not stable) the angles are pairwise different."""
     lo = rng.randint(-7000, 0)
     out, v = [], lo
+    rep = repeats and rng.random() < 0.5
     for _ in range(n):
         out.append(v)
-        v += rng.choice([100, 200, 300, 150, 201, 17, 5, 1])
-    return out                                               # ascending, pairwise different
+        v += rng.choice([100, 200, 300, 150, 201, 17, 5, 1] + ([0, 0] if rep else []))
+    return out
 
 
 def gen_ctf(rng, n, phase):
-    return [{"u": rng.randint(5000, 80000) * 10 + rng.randrange(10), "v": rng.randint(5000, 80000) * 10 + rng.randrange(10),
+    rows = [{"u": rng.randint(5000, 80000) * 10 + rng.randrange(10), "v": rng.randint(5000, 80000) * 10 + rng.randrange(10),
              "ang": rng.randint(-9000, 9000), "ps": (rng.randint(0, 3141) if phase else 0)} for _ in range(n)]
+    if n > 1 and rng.random() < 0.4:
+        for _ in range(1 + n // 8):                            # repeated defocus rows (two images fitted alike)
+            a, b = rng.randrange(n), rng.randrange(n)
+            rows[a] = dict(rows[b])
+    return rows
 
 
 def gen_consts(rng):
@@ -551,7 +560,7 @@ def gen_table_case0(rng, idx):
         return {"kind": "loader", "id": idx, "what": "dose", "vals": [gen_dose(rng) for _ in range(n)],
                 "input": rng.choice(["file", "file", "array", "list"])}
     if r < 0.32:
-        tl = gen_tilts(rng, n)
+        tl = gen_tilts(rng, n, repeats=False)
         rng.shuffle(tl)                                       # acquisition order, not tilt order
         return {"kind": "loader", "id": idx, "what": "mdocdose", "sort": rng.random() < 0.7,
                 "imgs": [{"tilt": t, "prior": rng.choice([0, rng.randint(0, 20000), rng.randint(0, 20000)]), "expo": rng.choice([0, rng.randint(1, 500), rng.randint(1, 500), rng.randint(1, 500)])} for t in tl]}
@@ -949,7 +958,7 @@ SESSION_CALLS = ["tlt_mdoc", "tlt_mdoc", "dose_mdoc", "dose_mdoc", "tlt_file", "
 
 def gen_session_case(rng, idx):
     n = rng.choice([2, 3, rng.randint(2, 41), rng.randint(2, 80)])
-    tl = gen_tilts(rng, n)
+    tl = gen_tilts(rng, n, repeats=False)
     acq = list(tl)
     rng.shuffle(acq)                                          # acquisition order of the mdoc
     imgs = [{"tilt": t, "prior": rng.choice([0, rng.randint(0, 20000), rng.randint(0, 20000)]), "expo": rng.choice([0, rng.randint(1, 500), rng.randint(1, 500), rng.randint(1, 500)])} for t in acq]
@@ -1144,7 +1153,8 @@ def run(ctx):
     ctx.assumptions += [
         "floats are decimals with at most six fraction digits, 1e-3 <= |v| < 1e6, no exponent form (repr prints them "
         "as the normalised decimal); values whose repr uses an exponent are outside the generated class",
-        "tilt angles of one document are pairwise different (sort_values is not stable) and never -0",
+        "tilt angles of one mdoc document are pairwise different (sort_values is not stable) and never -0; tilt files, "
+        "arrays and lists may record a tilt twice",
         "free text contains no '=' (it may be non-ASCII, files are UTF-8); titles neither start with '[' nor end with ']'",
         "index subsets are handed over as lists / arrays (an index may be named twice)",
         "file names are str; pathlib.Path only where the tree accepts it (Mdoc, STAR / ctffind4 readers, output files) - "
